@@ -672,6 +672,16 @@ def make_met(P):
             r_same = r[idx]
         else:
             r_same = r
+        if P.get("extra") and not P.get("drop"):
+            # the estimate is sampled more densely than the reference: additional poses half-way between the reference
+            # stamps (farther than the association threshold from any of them) - the estimate is the LONGER trajectory
+            m = n - 1
+            xs = scaled_SE3(pp, torch, [m], dt, 3.0, 1.0)
+            sx = rst[:-1] + 0.05
+            order = torch.argsort(torch.cat([est, sx]))
+            e = pp.SE3(torch.cat([e.tensor(), xs.tensor()])[order])
+            r_same = pp.SE3(torch.cat([r_same.tensor(), xs.tensor()])[order])
+            est = torch.cat([est, sx])[order]
         G = scaled_SE3(pp, torch, [1], dt, 3.0, 1.0)[0]
         kw = dict(etype=etype, diff=0.01, thresh=0.0)
 
@@ -883,7 +893,8 @@ def plan(ctx):
         jobs.append(("met", {"metric": metric, "n": n, "etype": etypes[(i // 2) % 5], "dl": dl,
                              "all": rng.random() < 0.5, "rpair": rng.random() < 0.5,
                              "dist": rng.choice([0, 0.5, 1.0]), "noise": rng.choice([0.02, 0.1]),
-                             "planar": rng.random() < 0.25, "drop": rng.random() < 0.3, "seed": sd()}))
+                             "planar": rng.random() < 0.25, "drop": rng.random() < 0.3, "extra": i % 4 == 0 or (i % 4 == 1 and rng.random() < 0.5),
+                             "seed": sd()}))
     return jobs
 
 
